@@ -75,6 +75,7 @@ type Gen struct {
 	loopInTry  bool
 	thrower    string // name of a helper function that may throw ("" = none)
 	closureN   int
+	anyObjFn   bool
 	noAssign   bool // no assignment statements / expressions (bodies of capturing closures)
 	extraFuncs []*Func
 	hasTrigger bool
@@ -912,6 +913,8 @@ func (g *Gen) stmt(d int) []Stmt {
 		return []Stmt{Let{Name: g.declFresh(Int), V: m}}
 	case r < 19 && g.F.NullLiteral && g.R.Chance(1, 4):
 		return g.nullStmts(d)
+	case r < 19 && g.F.Lists && g.F.Funcs && g.R.Chance(1, 5):
+		return g.anyObjStmts(d)
 	case r < 19 && g.F.Lists && g.R.Chance(1, 3):
 		if st := g.nestedListStmts(d); st != nil {
 			return st
@@ -931,6 +934,28 @@ func (g *Gen) stmt(d int) []Stmt {
 		}
 	}
 	return []Stmt{g.letStmt(d)}
+}
+
+// anyObjStmts: a function that builds a fresh any-object from one literal site, fills it and reports
+// its keys, called twice (every evaluation of `new { ? }` is a new, empty object).
+func (g *Gen) anyObjStmts(d int) []Stmt {
+	g.cover("anyobj-literal-twice")
+	fn := "fresh_any_object"
+	if !g.anyObjFn {
+		g.anyObjFn = true
+		o := Var{"o", AnyOb}
+		g.extraFuncs = append(g.extraFuncs, &Func{Name: fn, Params: []Param{{Name: "k", T: Str}, {Name: "v", T: Int}}, Ret: ListOf(Str), Body: &Block{
+			Stmts: []Stmt{Let{Name: "o", V: AnyObjLit{}}, ExprStmt{MCall{Recv: o, Name: "set", Args: []Expr{Var{"k", Str}, Var{"v", Int}}, Ret: Null}}},
+			Tail:  MCall{Recv: o, Name: "keys", Ret: ListOf(Str)}}})
+	}
+	var out []Stmt
+	for i := 0; i < 2; i++ {
+		arg := g.pureExpr(Int, d-1)
+		name := g.fresh()
+		g.declare(name, ListOf(Str))
+		out = append(out, Let{Name: name, V: Call{Fn: fn, Args: []Expr{StrLit{fw.Pick(g.R, []string{"a", "b", "key", "Zoë"}) + fmt.Sprint(i)}, arg}, Ret: ListOf(Str)}})
+	}
+	return out
 }
 
 // nullStmts: expressions of type null in statement and initialiser position (each must leave the
@@ -1053,7 +1078,10 @@ func (g *Gen) rangeVarStmts(d int) []Stmt {
 	rv := "rg" + letters(g.nameN)
 	lo := int64(g.R.Intn(3))
 	hi := lo + 2 + int64(g.R.Intn(4))
-	incl := g.R.Chance(1, 4)
+	incl := g.R.Chance(1, 3)
+	if g.R.Chance(1, 3) {
+		lo, hi = hi, lo // descending
+	}
 	g.declare(rv, Range)
 	rvar := Var{rv, Range}
 	out := []Stmt{Let{Name: rv, V: RangeLit{A: IntLit{lo}, B: IntLit{hi}, Incl: incl}}}
@@ -1177,8 +1205,17 @@ func (g *Gen) loopStmt(d int) []Stmt {
 		g.declare(i, Int)
 		body := &Block{Stmts: g.stmts(1+g.R.Intn(3), d-1)}
 		g.popScope()
-		a := int64(g.R.Intn(3))
-		return []Stmt{For{Name: i, Iter: RangeLit{A: IntLit{a}, B: IntLit{a + k}, Incl: g.R.Chance(1, 4)}, Body: body}}
+		a := int64(g.R.Intn(3)) - int64(g.R.Intn(2))*3
+		lo, hi, incl := a, a+k, g.R.Chance(1, 3)
+		switch g.R.Intn(6) {
+		case 0, 1: // descending
+			g.cover("for-range-desc")
+			lo, hi = hi, lo
+		case 2: // a single value or nothing: a..=a / a..a
+			g.cover("for-range-point")
+			hi = lo
+		}
+		return []Stmt{For{Name: i, Iter: RangeLit{A: IntLit{lo}, B: IntLit{hi}, Incl: incl}, Body: body}}
 	default: // for over list
 		if !g.F.Lists {
 			return []Stmt{g.letStmt(d)}
@@ -1246,6 +1283,7 @@ func (g *Gen) tryStmt(d int) []Stmt {
 func (g *Gen) Program(size int) *Program {
 	g.Cover = map[string]bool{}
 	g.extraFuncs = nil
+	g.anyObjFn = false
 	mod := &Module{Name: "main"}
 	g.scopes = [][]varInfo{nil}
 	g.budget = size
@@ -1294,10 +1332,21 @@ func (g *Gen) Program(size int) *Program {
 	if g.F.Funcs {
 		nf := g.R.Intn(4)
 		for i := 0; i < nf; i++ {
-			mod.Funcs = append(mod.Funcs, g.function(fmt.Sprintf("f%s", string(rune('a'+i))), depth))
+			name := fmt.Sprintf("f%s", string(rune('a'+i)))
+			if g.R.Chance(1, 3) {
+				// long identifiers: anything that renders function names (stack traces of fatal
+				// errors, diagnostics) meets names wider than its columns
+				g.cover("long-fn-name")
+				name = fmt.Sprintf("compute_weighted_average_of_readings_%s", string(rune('a'+i)))
+			}
+			mod.Funcs = append(mod.Funcs, g.function(name, depth))
 		}
 		if g.F.Recursion && g.R.Chance(1, 3) {
-			mod.Funcs = append(mod.Funcs, g.recFunction("rec"))
+			name := "rec"
+			if g.R.Chance(1, 3) {
+				name = "recursive_descent_into_the_list"
+			}
+			mod.Funcs = append(mod.Funcs, g.recFunction(name))
 		}
 	}
 	g.inFn = nil
@@ -1315,7 +1364,21 @@ func (g *Gen) Program(size int) *Program {
 }
 
 func (g *Gen) fatalStmt() Stmt {
-	switch g.R.Intn(4) {
+	switch g.R.Intn(6) {
+	case 4, 5:
+		// the fatal error is raised two frames deep inside functions with long names (the stack trace
+		// of the error names every frame)
+		g.cover("fatal-in-long-named-fn")
+		inner, outer := "raise_the_fatal_error_in_a_function_with_a_long_name", "relay_to_the_failing_function"
+		k := Var{"k", Int}
+		var fail Expr = Infix{"/", IntLit{7}, k}
+		if g.R.Bool() {
+			fail = &Block{Stmts: []Stmt{ExprStmt{Builtin{"throw", []Expr{StrLit{"deep"}}}}}, Tail: k}
+		}
+		g.extraFuncs = append(g.extraFuncs,
+			&Func{Name: inner, Params: []Param{{Name: "k", T: Int}}, Ret: Int, Body: &Block{Tail: fail}},
+			&Func{Name: outer, Params: []Param{{Name: "k", T: Int}}, Ret: Int, Body: &Block{Tail: Infix{"+", IntLit{1}, Call{Fn: inner, Args: []Expr{k}, Ret: Int}}}})
+		return ExprStmt{Builtin{"println", []Expr{Call{Fn: outer, Args: []Expr{IntLit{0}}, Ret: Int}}}}
 	case 0:
 		g.cover("fatal-div0")
 		z := g.declFresh(Int)
